@@ -614,7 +614,7 @@ def model_lines(trace):
     return lines
 
 
-def compare(trace, model_out):
+def compare(trace, model_out, fifo=False):
     """first disagreement between the implementation's trace and the model's replay, or None"""
     for i, (x, mo) in enumerate(zip(trace, model_out)):
         m = json.loads(mo)
@@ -630,6 +630,10 @@ def compare(trace, model_out):
         impl = x.get("impl", {})
         if not m.get("enabled", True):
             return {"at": i, "op": {k: v for k, v in x.items() if k != "impl"}, "model": "step not enabled", "impl": "performed"}
+        if op == "deliver" and fifo and m.get("fifoStep") is False:
+            # the hypothesis of the FIFO-tier theorems (per-producer order, `fifoStep`) must cover what a FIFO executor does
+            return {"at": i, "op": {k: v for k, v in x.items() if k != "impl"}, "field": "fifoStep",
+                    "model": "batch is not a per-task prefix of the pending notices", "impl": "delivered by the FIFO executors"}
         if op == "round" and x.get("final"):
             if m.get("phase") != "finished":
                 return {"at": i, "op": "loop-exit", "model": {"phase": m.get("phase"), "err": m.get("err")}, "impl": "run() returned"}
